@@ -38,6 +38,13 @@ try:
         print(p, tier, 'exit', c.returncode, len(viol), 'VIOLATION lines;', (fails[:2]))
 finally:
     subprocess.run(['git', '-C', '/repo', 'checkout', '--', '.'])
+    # the regenerated model files now describe the PATCHED tree: regenerate them from the restored one
+    for a in (['tools/rs2lean.py', '/repo/kurbo/src', 'lean/Kurbo/Gen/Kernel.lean', '--suffix', '_g'],
+              ['tools/rs2lean.py', '/repo/kurbo/src', 'lean/Kurbo/Gen/Kernel2.lean', '--suffix', '_g', '--tier', '2'],
+              ['tools/gen_equiv.py', 'lean/Proofs/GenEquiv.lean'], ['tools/gen_equiv2.py', 'lean/Proofs/GenEquiv2.lean'],
+              ['tools/gltables.py', '/repo/kurbo/src/common.rs', 'lean/Kurbo/Gen/GLTables.lean', '--suffix', '_g'],
+              ['tools/floatfuncs.py', '/repo/kurbo/src/common.rs', 'lean/Kurbo/Gen/FloatFuncs.lean', '--suffix', '_g']):
+        subprocess.run([sys.executable] + a, cwd=V, capture_output=True)
 old = {}
 if os.path.exists(f'{dst}/result.json'):
     old = json.load(open(f'{dst}/result.json'))
